@@ -656,6 +656,22 @@ class Interp:
             d = src(fn)
             if d in self.externals:
                 return self.externals[d](*args, **kwargs)
+            # super().method(...): next definition after the class that defines the running function
+            if isinstance(fn.value, ast.Call) and isinstance(fn.value.func, ast.Name) and fn.value.func.id == "super" and not fn.value.args:
+                owner = f
+                while owner.cls is None and owner.parent is not None:
+                    owner = owner.parent
+                if owner.cls is None:
+                    raise Unmodelled(f"{f.qualname}: super() outside a class")
+                for c_ in self.P.mro(owner.cls)[1:]:
+                    if fn.attr in c_.methods:
+                        g_ = c_.methods[fn.attr]
+                        if "cls" in env and isinstance(env["cls"], ClassVal):
+                            return self._call_func(g_, args, kwargs, bound=env["cls"])
+                        if "self" in env:
+                            return self._call_method(g_, env["self"], args, kwargs)
+                        raise Unmodelled(f"{f.qualname}: super() without cls/self")
+                raise Unmodelled(f"{f.qualname}: super().{fn.attr} not found in the in-repo MRO")
             # set / dict methods
             try:
                 base = self.eval(fn.value, env, f)
